@@ -8,13 +8,13 @@ except OSError:
 SPEC = dict(
     harness=['h_poly.c', 'h_poly_ext.c'],
     # the default (double) build runs the full harness; the other two real widths run a compact type-generic companion
-    configs=lambda tier: [dict(name='f64'), dict(name='f64-clang', libcc='clang', nworkers=4, of=8), dict(name='f32', real=4, harness=['h_poly_w.c']), dict(name='f80', real=16, harness=['h_poly_w.c']),
+    configs=lambda tier: [dict(name='f64'), dict(name='f64-clang', libcc='clang', nworkers=4, of=8), dict(name='f64-o2', libflavour='san-o2', libdrop=['-fno-strict-aliasing'], nworkers=4, of=8), dict(name='f32', real=4, harness=['h_poly_w.c']), dict(name='f80', real=16, harness=['h_poly_w.c']),
                           dict(name='cxx', harness=['h_cxxw.c', 'h_cxxw_shim.cc'], hflags=['-DVF_CXXW=15'], nworkers=4),
                           # coefficient vectors longer than 2^32 over a sparsely backed mapping (unsanitised)
                           dict(name='giant', harness=['h_poly_giant.c'], flavour='fast', nworkers=2 if tier == 'quick' else 4)] +
                          # ISA axis: with -mfma <math.h> defines FP_FAST_FMA*, which selects other arms of conditional code (only where the CPU has it)
                          ([dict(name='f80-fma', real=16, harness=['h_poly_w.c'], cflags=['-mfma'], nworkers=3)] if _HAS_FMA else []),
-    parallel_configs=7,
+    parallel_configs=8,
     workers={'quick': 12, 'thorough': 36},
     level='exploration',
     rule='boundary data sets are drawn at random: main regime = every boundary value non-zero, sign random, magnitude log-uniform in '
